@@ -44,9 +44,25 @@ SAMPLERS = ["random", "tpe", "tpe", "tpe_mv", "tpe_group", "tpe_cl", "nsgaii", "
 
 
 @st.composite
+def _decimal_grid(draw: Any) -> dict[str, Any]:
+    """Short decimal grids (0.1, 0.2, 0.3 / 0.1 .. 0.7 step 0.2 ...): few cells, so the top and
+    bottom cells are sampled often, and low + k*step is typically not exactly representable."""
+    step = draw(st.sampled_from([0.1, 0.2, 0.3, 0.05, 0.7, 0.01, 1.1]))
+    a = draw(st.integers(-5, 5))
+    n = draw(st.integers(1, 4))
+    from decimal import Decimal
+
+    low = float(Decimal(str(step)) * a)
+    high = float(Decimal(str(step)) * (a + n))
+    return {"kind": "Float", "low": low, "high": high, "log": False, "step": step}
+
+
+@st.composite
 def param_spec(draw: Any) -> dict[str, Any]:
     spec = draw(
         st.one_of(
+            _decimal_grid(),
+            _decimal_grid(),
             gen.float_plain_spec(),
             gen.float_plain_spec(),
             gen.float_log_spec(),
@@ -226,13 +242,14 @@ def run_study(case: dict[str, Any], ctx: Ctx) -> None:
             if not _same(v, v2):
                 raise Violation("second-suggest-differs", f"{where}: {v!r} then {v2!r}", case)
             if name in enq and not pl["use_alt"][i]:
-                if not _same(enq[name], v):
+                if not _same(enq[name], v) and not (isinstance(v, int) and not isinstance(v, bool) and isinstance(enq[name], float) and enq[name] == v):
                     raise Violation("enqueued-value-not-returned", f"{where}: enqueued {enq[name]!r}, suggest returned {v!r}", case)
                 ctx.event("enqueued_value_checked")
             elif fixed_value is not None and name == "p0" and not pl["use_alt"][0]:
                 if not _same(v, fixed_value):
                     raise Violation("fixed-value-not-returned", f"{where}: fixed {fixed_value!r}, got {v!r}", case)
-            if not _same(trial.params[name], v):
+            # (trial.params of an enqueued int given as 3.0 holds the float: equal, not identical)
+            if not _same(trial.params[name], v) and not (_is_num(v) and _is_num(trial.params[name]) and trial.params[name] == v):
                 raise Violation("trial.params-differs", f"{where}: suggest {v!r}, trial.params {trial.params[name]!r}", case)
             if name in getattr(trial, "relative_params", {}):
                 relative_used[0] += 1
@@ -252,6 +269,9 @@ def run_study(case: dict[str, Any], ctx: Ctx) -> None:
         for i, pl in enumerate(plan):
             if pl["enqueue"] is not None and not any(pl["use_alt"]):
                 fixed = {n: member_value(p["spec"], f) for n, p, f in zip(names, params, pl["enqueue"]) if f is not None}
+                # an integral float is a valid way to enqueue an integer parameter
+                kinds = {n: p["spec"]["kind"] for n, p in zip(names, params)}
+                fixed = {n: (float(v) if kinds[n] == "Int" and abs(v) < 2**50 and i % 2 == 0 else v) for n, v in fixed.items()}
                 if fixed:
                     study.enqueue_trial(fixed)
             try:
@@ -283,6 +303,10 @@ def run_study(case: dict[str, Any], ctx: Ctx) -> None:
         ctx.event("suggestions", sum(len(v) for v in seen.values()))
     finally:
         fac.release()
+
+
+def _is_num(x: Any) -> bool:
+    return isinstance(x, (int, float)) and not isinstance(x, bool)
 
 
 def _same(a: Any, b: Any) -> bool:
